@@ -40,7 +40,7 @@ ATTRS = {"type": "inner", "name": "name"}
 
 
 class Translator:
-    def __init__(self, params, calls, param_type="Ty", extra_calls=None):
+    def __init__(self, params, calls, param_type="Ty", extra_calls=None, isinstance_extra=None):
         """
         params: names of the Python parameters (all of Lean type `param_type`)
         calls:  python function name -> lean name of the `rec_` parameter
@@ -49,6 +49,8 @@ class Translator:
         self.params = params
         self.calls = calls
         self.extra = extra_calls or {}
+        # python class name -> lean predicate applied as a function `(pred x)` (e.g. schema-dependent kinds)
+        self.isinstance_extra = isinstance_extra or {}
 
     # ---- expressions ---------------------------------------------------
     def expr(self, e):
@@ -73,6 +75,8 @@ class Translator:
                 return self.expr(e.args[0])
             if fname == "isinstance" and len(e.args) == 2:
                 cls = e.args[1]
+                if isinstance(cls, ast.Name) and cls.id in self.isinstance_extra:
+                    return "(%s %s)" % (self.isinstance_extra[cls.id], self.term(e.args[0]))
                 if isinstance(cls, ast.Name) and cls.id in ISINSTANCE:
                     return "%s.%s" % (self.term(e.args[0]), ISINSTANCE[cls.id])
                 if isinstance(cls, ast.Tuple) and all(isinstance(c, ast.Name) and c.id in ISINSTANCE for c in cls.elts):
@@ -86,6 +90,14 @@ class Translator:
                     raise Untranslatable("arity of " + fname)
                 return "(%s %s)" % (lean, " ".join(self.term(a) for a in e.args))
             raise Untranslatable("call of unknown function " + fname)
+        if isinstance(e, ast.Compare) and len(e.ops) == 1 and self._is_type_call(e.left) and self._is_type_call(e.comparators[0]):
+            # type(a) == type(b): same outermost constructor
+            l, r = self.term(e.left.args[0]), self.term(e.comparators[0].args[0])
+            if isinstance(e.ops[0], (ast.Eq, ast.Is)):
+                return "(Ty.sameCtor %s %s)" % (l, r)
+            if isinstance(e.ops[0], (ast.NotEq, ast.IsNot)):
+                return "(!Ty.sameCtor %s %s)" % (l, r)
+            raise Untranslatable("comparison " + ast.dump(e.ops[0]))
         if isinstance(e, ast.Compare) and len(e.ops) == 1:
             l, r = self.term(e.left), self.term(e.comparators[0])
             if isinstance(e.ops[0], (ast.Eq, ast.Is)):
@@ -94,6 +106,11 @@ class Translator:
                 return "(%s != %s)" % (l, r)
             raise Untranslatable("comparison " + ast.dump(e.ops[0]))
         raise Untranslatable("expression " + ast.dump(e))
+
+    @staticmethod
+    def _is_type_call(e):
+        return (isinstance(e, ast.Call) and isinstance(e.func, ast.Name) and e.func.id == "type"
+                and len(e.args) == 1 and not e.keywords)
 
     def term(self, e):
         if isinstance(e, ast.Name):
@@ -141,7 +158,8 @@ def find_function(source, name, cls=None):
     raise Untranslatable("function %s not found" % name)
 
 
-def translate_step(source, name, lean_name, rec_calls, cls=None, extra_calls=None, skip_self=False):
+def translate_step(source, name, lean_name, rec_calls, cls=None, extra_calls=None, skip_self=False,
+                   isinstance_extra=None, extra_params=""):
     """
     Translate `name` from `source` to a Lean step functional called `lean_name`.
 
@@ -153,11 +171,11 @@ def translate_step(source, name, lean_name, rec_calls, cls=None, extra_calls=Non
         params = params[1:]
     if fn.args.vararg or fn.args.kwarg or fn.args.kwonlyargs:
         raise Untranslatable("signature of " + name)
-    tr = Translator(params, rec_calls, extra_calls=extra_calls)
+    tr = Translator(params, rec_calls, extra_calls=extra_calls, isinstance_extra=isinstance_extra)
     body = tr.block(fn.body, "false")
     recs = " ".join("(%s : Ty → Ty → Bool)" % r for r in rec_calls.values())
     ps = " ".join(params)
-    out = "def %s %s (%s : Ty) : Bool :=\n  %s\n" % (lean_name, recs, ps, body)
+    out = "def %s %s%s (%s : Ty) : Bool :=\n  %s\n" % (lean_name, (extra_params + " ") if extra_params else "", recs, ps, body)
     return out, ast.get_source_segment(source, fn)
 
 
